@@ -59,6 +59,26 @@ def seeded():
     return head + "\n".join(rows)
 
 
+def strengthening():
+    """Per property: what was added to its check after a seeded change was missed."""
+    by = {}
+    for d in sorted(glob.glob(os.path.join(V, "seeded", "*"))):
+        mp = os.path.join(d, "meta.json")
+        if not os.path.exists(mp):
+            continue
+        m = json.load(open(mp))
+        note = m.get("note", "")
+        if "miss" not in note:
+            continue
+        by.setdefault(m["property"], []).append("%s: %s" % (os.path.basename(d), note))
+    out = []
+    for prop in sorted(by):
+        out.append("* **%s**" % prop)
+        for n in by[prop]:
+            out.append("  * %s" % n)
+    return "\n".join(out)
+
+
 def findings():
     subj = {}
     for l in subprocess.check_output(["git", "-C", "/repo", "log", "--format=%h\t%s"]).decode().splitlines():
@@ -96,7 +116,7 @@ def hooks():
 def main():
     p = os.path.join(V, "DESIGN.md")
     s = open(p).read()
-    for name, fn in (("as-built", as_built), ("seeded", seeded), ("findings", findings), ("hook-commits", hooks)):
+    for name, fn in (("as-built", as_built), ("seeded", seeded), ("strengthening", strengthening), ("findings", findings), ("hook-commits", hooks)):
         b, e = "<!-- BEGIN:%s -->" % name, "<!-- END:%s -->" % name
         if b not in s:
             print("marker missing:", name)
